@@ -687,12 +687,25 @@ def place(tok, body, where):
 TMS_BODY = "Reply be1ow"
 ARS_BODY = {"dev": "2001", "user": "Op3rator", "pw": "s3cret"}
 ADDR_BODY = bytes.fromhex("0a0b0c0d")
-# two carriers per protocol: everything else about the message that could gate a content-dependent branch
+# Carrier messages: everything else about the message that could gate a content-dependent branch.  Six carriers per
+# protocol form a pairwise covering array of the binary factors (column j of the array = the j-th 3-subset of rows
+# 1..5, row 0 all zero: any two columns show 00, 01, 10 and 11), so every token x placement x encoding meets every
+# value of every factor and every pair of factor values; the thorough tier adds the full factorial.
+_SUBSETS = [(1, 2, 3), (1, 2, 4), (1, 2, 5), (1, 3, 4), (1, 3, 5), (1, 4, 5), (2, 3, 4), (2, 3, 5), (2, 4, 5), (3, 4, 5)]
+_CA = [[int(r in sub) for sub in _SUBSETS] for r in range(6)]
 TMS_CARRIERS = [
-    {"more": 0, "ack": 0, "res": 0, "addr": "", "seq": 5, "ctor": "member"},
-    {"more": 1, "ack": 1, "res": 1, "addr": "0a0b0c", "seq": 85, "ctor": "int"},
+    {"more": c[0], "ack": c[1], "res": c[2], "addr": "0a0b0c" if c[3] else "", "seq": 85 if c[4] else 5, "ctor": "int" if c[5] else "member"}
+    for c in _CA
 ]
+# carriers 0 and 1 are complementary in every factor (row 1 of the array is replaced by the complement of row 0 in
+# the consumers that only use two carriers)
+TMS_CARRIERS2 = [TMS_CARRIERS[0], {"more": 1, "ack": 1, "res": 1, "addr": "0a0b0c", "seq": 85, "ctor": "int"}]
 ARS_CARRIERS = [
+    {"type": 2 if c[0] else 0, "more": c[1], "ack": c[2], "prio": c[3], "ctl": c[4], "csbk": c[5], "rrh": [r % 3, 0] if c[1] or c[8] else None,
+     "ctor": "int" if c[6] else "member", "others": "empty" if c[7] else "plain"}
+    for r, c in enumerate(_CA)
+]
+ARS_CARRIERS2 = [
     {"type": 0, "more": 1, "ack": 0, "prio": 0, "ctl": 0, "csbk": 0, "rrh": [1, 0], "ctor": "member", "others": "plain"},
     {"type": 2, "more": 0, "ack": 1, "prio": 1, "ctl": 1, "csbk": 1, "rrh": None, "ctor": "int", "others": "empty"},
 ]
@@ -721,8 +734,8 @@ def ars_reg_fields(carrier, vals, tag):
 def special_tokens(ctx, rng, pairs):
     """the dictionary x placements x fields (x encodings x carriers): a fixed share of both tiers"""
     te, td, ae, ad, misc = pairs
-    plans = [(n, t, PLACEMENTS, (0, 1)) for n, t in TOK_CORE.items()]
-    plans += [(n, t, PLACEMENTS_FEW, (i & 1,)) for i, (n, t) in enumerate(TOK_EXTRA.items())]
+    plans = [(n, t, PLACEMENTS, tuple(range(6))) for n, t in TOK_CORE.items()]
+    plans += [(n, t, PLACEMENTS_FEW, (i % 6,)) for i, (n, t) in enumerate(TOK_EXTRA.items())]
     for name, tok, places, carriers in plans:
         sur = _has_surrogate(tok)
         for where in places:
@@ -778,7 +791,7 @@ def special_tokens(ctx, rng, pairs):
         for where in PLACEMENTS:
             tag = f"raw-{name}@{where}"
             msg = place(tok, body, where)
-            for ci in (0, 1):
+            for ci in range(6):
                 for enc in (None, 0, 1):
                     tms_case(ctx, tms_text_fields(TMS_CARRIERS[ci], enc, msg, None, "text:" + tag), te, td, "special")
                     ctx.count("special:tms-text-raw")
@@ -835,21 +848,35 @@ def special_lengths(ctx, rng, pairs):
                 v = fill(ch, size, nb, pad_first).encode("utf-8")
                 for ci, field in ((0, "dev"), (1, "user"), (0, "pw"), (1, "all")):
                     ks = ("dev", "user", "pw") if field == "all" else (field,)
-                    ars_case(ctx, ars_reg_fields(ARS_CARRIERS[ci], {k: v for k in ks}, f"{field}:max{size}:{ord(ch[0]):x}"), ae, ad, "special")
+                    ars_case(ctx, ars_reg_fields(ARS_CARRIERS2[ci], {k: v for k in ks}, f"{field}:max{size}:{ord(ch[0]):x}"), ae, ad, "special")
                     ctx.count("special:ars-maxlen-multibyte" if size <= 255 else "special:ars-overlong-multibyte")
     for ch in MAX_UNITS:
         for size in (199, 200, 201, 202):
             for pad_first in (False, True):
                 text = fill(ch, size, nu, pad_first)
                 for ci, enc in ((0, 1), (1, None), (1, 1)):
-                    tms_case(ctx, tms_text_fields(TMS_CARRIERS[ci], enc, u16(text), text, f"text:max{size}:{ord(ch[0]):x}"), te, td, "special")
+                    tms_case(ctx, tms_text_fields(TMS_CARRIERS2[ci], enc, u16(text), text, f"text:max{size}:{ord(ch[0]):x}"), te, td, "special")
                     ctx.count("special:tms-maxlen-text" if size <= 200 else "special:tms-overlong-text")
+    # every core token before and behind a LONG ordinary value (a branch may be gated by the size of the value)
+    for i, (name, tok) in enumerate(TOK_CORE.items()):
+        for j, where in enumerate(("start", "end")):
+            n = 200 - nu(tok)
+            text = place(tok, ("Lorem ipsum d0lor sit amet " * 8)[:n], where)
+            for enc in (1, None):
+                tms_case(ctx, tms_text_fields(TMS_CARRIERS[(i + j) % 6], enc, u16(text), text, f"text:{name}@{where}-of-long"), te, td, "special")
+                ctx.count("special:tms-token-with-long-text")
+            if _has_surrogate(tok):
+                continue
+            for k in ("dev", "user", "pw"):
+                v = place(tok, ("0123456789abcdefghijklmnopqrstuvwxyz" * 8)[: 255 - nb(tok)], where).encode("utf-8")
+                ars_case(ctx, ars_reg_fields(ARS_CARRIERS[(i + j) % 6], {k: v}, f"{k}:{name}@{where}-of-long"), ae, ad, "special")
+                ctx.count("special:ars-token-with-long-value")
     # every text length 0..202 (frame lengths crossing 255/256) of a cycle of special characters, CR LF first
     cyc = "\r\n\ufeff\x00\u8010\xe9\u20ac \uffff\u0301\n"
     for n in range(203):
         text = (cyc * (n // len(cyc) + 1))[:n]
         for ci, enc in ((n & 1, 1), (1 - (n & 1), None)):
-            tms_case(ctx, tms_text_fields(TMS_CARRIERS[ci], enc, u16(text), text, f"text:len{n}"), te, td, "special")
+            tms_case(ctx, tms_text_fields(TMS_CARRIERS2[ci], enc, u16(text), text, f"text:len{n}"), te, td, "special")
             ctx.count("special:tms-text-length-sweep")
     # 255-octet addresses made of constants
     for h in ("00", "ff", "1080", "0d000a00", "fffe", "efbbbf", "20"):
@@ -866,7 +893,7 @@ def special_lengths(ctx, rng, pairs):
     for n in range(80, 91):
         for ch in ("\ufeff", "\xe9", "a", "\U0001f600"):
             v = fill(ch, n, nb, False).encode("utf-8")
-            ars_case(ctx, ars_reg_fields(ARS_CARRIERS[n & 1], {"dev": v, "user": v, "pw": v}, f"all:sum{3 * n}"), ae, ad, "special")
+            ars_case(ctx, ars_reg_fields(ARS_CARRIERS[n % 6], {"dev": v, "user": v, "pw": v}, f"all:sum{3 * n}"), ae, ad, "special")
             ctx.count("special:ars-payload-256")
 
 
@@ -889,14 +916,14 @@ def special_single_chars(ctx, rng, pairs):
     for i, c in enumerate(cps + astral):
         ch = chr(c)
         for j, text in enumerate((ch + TMS_BODY, TMS_BODY + ch)):
-            car = TMS_CARRIERS[(i + j) & 1]
+            car = TMS_CARRIERS[(i + j) % 6]
             tms_case(ctx, tms_text_fields(car, (1, 1, None, 0)[(i >> 1) & 3], u16(text), text, f"text:char{c:04x}@{'start' if j == 0 else 'end'}"), te, td, "special")
         ctx.count("special:tms-text-single-char", 2)
         if 0xD800 <= c <= 0xDFFF:
             continue
         k = fields[i % 3]
         for j, v in enumerate((ch + ARS_BODY[k], ARS_BODY[k] + ch)):
-            ars_case(ctx, ars_reg_fields(ARS_CARRIERS[(i + j) & 1], {k: v.encode("utf-8")}, f"{k}:char{c:04x}@{'start' if j == 0 else 'end'}"), ae, ad, "special")
+            ars_case(ctx, ars_reg_fields(ARS_CARRIERS[(i + 2 * j) % 6], {k: v.encode("utf-8")}, f"{k}:char{c:04x}@{'start' if j == 0 else 'end'}"), ae, ad, "special")
         ctx.count("special:ars-single-char", 2)
 
 
